@@ -432,9 +432,71 @@ class ArrayAndFrameCaches(Suite):
         return repr(case)
 
 
+class TwoKeysOneShard(Suite):
+    """two different keys whose files live in one shard directory (their hashes share the first five digits), used by
+    overlapping calls (every interleaving of the steps lock, check, compute, write aside, publish - driven by the
+    cooperative scheduler of the C15 check): each call gets the value computed for ITS key, each key ends up holding its
+    own value, no call fails.  Runtime check only (the cache model is sequential, the C15 model has one key)."""
+    name = 'two_keys_one_shard'
+    model = ''
+    KEYS = ['key-81', 'key-375']          # sha256 of both starts with d63ad
+
+    def corpus(self):
+        c = [dict(kind='goc', force=False), dict(kind='goc', force=False)]
+        return [dict(init='absent', callers=c, keys=self.KEYS, seed=1, late_start=True,
+                     script=[0, 1, 0, 1, 0, 0, 0, 0, 0, 1, 1, 1, 1, 1, 0, 0, 1, 1]),
+                dict(init='absent', callers=c, keys=self.KEYS, seed=2, late_start=True,
+                     script=[0, 1, 0, 1, 0, 0, 0, 0, 1, 1, 1, 1, 0, 0, 0, 1, 1, 1])]
+
+    def gen(self, rng, tier):
+        out = []
+        for _ in range(60 if tier == 'quick' else 1500):
+            n = rng.choice([2, 2, 3])
+            callers = [dict(kind='goc', force=rng.random() < 0.3) if rng.random() < 0.8 else dict(kind='get') for _ in range(n)]
+            keys = [self.KEYS[i % 2] for i in range(n)]
+            if rng.random() < 0.5:
+                keys = keys[::-1]
+            out.append(dict(init=rng.choice(['absent', 'absent', 'full']), callers=callers, keys=keys, seed=rng.randrange(10 ** 9),
+                            late_start=rng.random() < 0.5))
+        return out
+
+    def run_impl(self, case):
+        from hashlib import sha256
+        assert len({sha256(k.encode()).hexdigest()[:5] for k in self.KEYS}) == 1
+        from .c15 import run_schedule
+        return run_schedule(case)
+
+    def oracle(self, case, obs):
+        from .c15 import INIT_VALUE
+        if 'unexpected_exception' in obs:
+            return f'unexpected exception {obs["unexpected_exception"]}: {obs["text"]}'
+        keys = case['keys']
+        for t, r in enumerate(obs['results']):
+            if r is None:
+                return f'caller {t} ({keys[t]}) never returned'
+            if r != 'novalue' and r[0] == 'exception':
+                return f'caller {t} ({keys[t]}) failed with {r[1]} while another key of the same directory was written'
+            if r != 'novalue':
+                mine = {100 + u for u in range(len(keys)) if keys[u] == keys[t]} | ({INIT_VALUE} if case['init'] == 'full' else set())
+                if r[1] not in mine:
+                    return f'caller {t} asked for {keys[t]} and got {r[1]!r}, a value computed for another key ({obs["results"]})'
+        for t, f in enumerate(obs['finals']):
+            mine = {100 + u for u in range(len(keys)) if keys[u] == keys[t]} | ({INIT_VALUE} if case['init'] == 'full' else set())
+            wrote = any(c['kind'] == 'goc' and keys[u] == keys[t] for u, c in enumerate(case['callers']))
+            if wrote and (f in ('absent', 'empty') or f[0] != 'full' or f[1] not in mine):
+                return f'at quiescence the entry of {keys[t]} is {f}'
+        return None
+
+    def nontrivial(self, case, obs):
+        return len(set(case['keys'])) == 2
+
+    def key(self, case):
+        return repr(case)
+
+
 class C14(Prop):
     pid = 'C14'
-    suites = [JsonCacheOps(), NumpyCacheOps(), ArrayAndFrameCaches()]
+    suites = [JsonCacheOps(), NumpyCacheOps(), ArrayAndFrameCaches(), TwoKeysOneShard()]
     trusted_base = ['orjson round trip of JSON-like values and "no proper prefix of an entry parses" (damaged files are '
                     'produced by truncation at arbitrary byte lengths in the correspondence)']
     assumptions = ['sequential use (concurrency is C15); SHA-256 without collision on the keys that occur']
